@@ -10,6 +10,8 @@ EXTENDS Spectral
 HalfA == { <<4, 4>> }
 ProfA == { <<"soft", "soft", "hard", "soft", "fixed">> }
 AreaA == { <<12, 3, 2, 28, 1>> }
+\* the same with a fixed terminal (a pin) instead of the fixed square
+AreaAT == { <<12, 3, 2, 28, 1>>, <<12, 3, 2, 28, 4>> }
 \* quick: soft r=2, soft r=3, bar, soft r=3 (fewer seeds: the seed range of a large module is short)
 AreaAQ == { <<12, 28, 2, 28, 1>> }
 FixA == { <<2, -2>> }
@@ -31,7 +33,7 @@ GenProf5 == { <<"soft", "soft", "soft", "soft", "fixed">>, <<"soft", "hard", "so
               <<"hard", "soft", "soft", "soft", "soft">>, <<"soft", "soft", "hard", "soft", "fixed">> }
 GenProf46 == { <<"soft", "soft", "soft", "soft">>, <<"hard", "hard", "hard", "hard">>,
                <<"soft", "soft", "hard", "soft", "fixed", "fixed">>, <<"fixed", "soft", "hard", "soft", "soft", "fixed">> }
-GenArea5 == { <<12, 3, 2, 28, 1>>, <<3, 1, 3, 2, 2>>, <<50, 1, 3, 1, 1>>, <<3, 3, 3, 3, 3>> }
+GenArea5 == { <<12, 3, 2, 28, 1>>, <<3, 1, 3, 2, 2>>, <<50, 1, 3, 1, 1>>, <<3, 3, 3, 3, 3>>, <<28, 3, 1, 3, 4>> }   \* (4 = a fixed terminal)
 GenArea46 == { <<12, 3, 2, 28>>, <<1, 2, 1, 1>>, <<3, 12, 2, 3, 1, 2>>, <<1, 28, 1, 3, 12, 1>> }
 GenProf == GenProf5 \cup GenProf46
 GenArea == GenArea5 \cup GenArea46
